@@ -229,6 +229,15 @@ func (c *Ctx) Finish() {
 		c.R.Nontrivial = n
 	}
 	c.R.WallS = time.Since(c.start).Seconds()
+	if lp := os.Getenv("VERIF_RACE_LOG"); lp != "" && os.Getenv("VERIF_RACE") == "1" {
+		// race pass: how many reports the detector wrote in this process (reports between harness threads' own bookkeeping
+		// are among them; those about the code under test became violations)
+		b, _ := os.ReadFile(fmt.Sprintf("%s.%d", lp, os.Getpid()))
+		if c.R.Extra == nil {
+			c.R.Extra = map[string]any{}
+		}
+		c.R.Extra["race_detector_reports"] = strings.Count(string(b), "WARNING: DATA RACE")
+	}
 	dumpSet(c.path+".states", c.states)
 	dumpSet(c.path+".nontriv", c.nontriv)
 	b, err := json.Marshal(c.R)
